@@ -108,7 +108,7 @@ Section WriteSession.
     w_scheme w = Some s -> s_truthy s = true ->
     writer_iadd sem w r =
     match record_validate sem r (Some (w_mode w)) LgWriter true (Some s) with
-    | (lg, Raise e) => (lg, with_out w s (w_out w), Raise e)
+    | (lg, Raise e) => (lg, w, Raise e)
     | (lg, Ok v) =>
         match record_text sem v with
         | Raise e => (lg, with_out w s (w_out w), Raise e)
@@ -126,16 +126,28 @@ Section WriteSession.
 
   (* the first `writer += r` of a scheme-less writer fixes the scheme, writes
      the column line, and then proceeds as a writer that has that scheme *)
-  Lemma iadd_no_scheme (w : writer) (r : mrec) :
+  Lemma iadd_no_scheme (w : writer) (r : mrec) lg v :
     w_scheme w = None ->
     names_writable (record_names r) = true ->
     let s := no_restrictions (record_names r) in
     s_truthy s = true ->
+    record_validate sem r (Some (w_mode w)) LgWriter true (Some s) = (lg, Ok v) ->
     writer_iadd sem w r = writer_iadd sem (with_out w s (w_out w ++ [join [TAB] (s_names s)])) r.
   Proof.
-    intros Hs Hw s Ht. rewrite (iadd_with_scheme (with_out w s _) s r eq_refl Ht).
+    intros Hs Hw s Ht Hv. rewrite (iadd_with_scheme (with_out w s _) s r eq_refl Ht).
     unfold writer_iadd, scheme_missing. rewrite Hs. fold (record_names r). fold s. rewrite Hw. cbn [negb andb].
-    unfold with_out. cbn [w_header w_scheme w_mode w_out]. reflexivity.
+    unfold with_out. cbn [w_header w_scheme w_mode w_out]. rewrite Hv. reflexivity.
+  Qed.
+
+  (* a first record that validation refuses leaves the scheme-less writer as it
+     was: no scheme adopted, no column line written (repaired code) *)
+  Lemma iadd_no_scheme_invalid (w : writer) (r : mrec) lg e :
+    w_scheme w = None -> names_writable (record_names r) = true ->
+    record_validate sem r (Some (w_mode w)) LgWriter true (Some (no_restrictions (record_names r))) = (lg, Raise e) ->
+    writer_iadd sem w r = (lg, w, Raise e).
+  Proof.
+    intros Hs Hw Hv. unfold writer_iadd, scheme_missing. rewrite Hs. fold (record_names r). rewrite Hw. cbn [negb andb].
+    cbn [w_mode]. now rewrite Hv.
   Qed.
 
   (* ... unless the format cannot carry the record's column names: the writer
